@@ -57,8 +57,8 @@ def run(ctx):
         parts.append(("forms2x2", cfg(2, 2, REP, '{"*", "+"}', "{1, 2}"), None, None))  # two special operands, k<=2
         parts.append(("lits3", cfg(3, 0, '{"*", "/", "-", "+", "="}', '{"*"}', lits='{"-1", "-2", "2", "1", "0"}'), None, None))     # 162 k
         parts.append(("lits2", cfg(2, 1, '{"*", "/", "-", "+", "="}', '{"*", "+"}', lits='{"-1", "-2", "2", "1", "0"}', nest="{1, 2}"), None, None))
-        parts.append(("sim", cfg(8, 0, ALL, '{"*"}', lits='{"-1", "2"}'), "num=1200", 9))
-        parts.append(("simforms", cfg(5, 3, ALL, SUB, "{1, 2}"), "num=60", 6))
+        parts.append(("sim", cfg(8, 0, ALL, '{"*"}', lits='{"-1", "2"}'), "num=200", 9))
+        parts.append(("simforms", cfg(5, 3, ALL, SUB, "{1, 2}"), "num=12", 6))
         parts.append(("levels7", cfg(7, 0, '{"*", "+", "=", "AND", "OR"}', '{"*"}'), None, None))
         parts.append(("long", cfg(240, 0, ALL, '{"*"}', inv=False), "num=6", 241))      # the judge's JSON reader stops at nesting depth 255
     for name, text, sim, depth in parts:
